@@ -123,6 +123,7 @@ func main() {
 	}
 	if want("ninv") {
 		ninvCases(r, per(hx.N(200, 4000)))
+		ninvTailCases(r, per(hx.N(40, 800)))
 	}
 	if want("sweep") {
 		sweepCases()
